@@ -301,7 +301,9 @@ func (c connectUnaryServerProtocol) extractProtocolResponseHeaders(statusCode in
 		endUnmarshaller = func(_ Codec, buf *bytes.Buffer, end *responseEnd) {
 			var wireErr connectWireError
 			if err := json.Unmarshal(buf.Bytes(), &wireErr); err != nil {
-				end.err = connect.NewError(connect.CodeInternal, err)
+				// Not a Connect error body (e.g. a plain HTTP error from a proxy or
+				// the server's HTTP stack): infer the code from the HTTP status.
+				end.err = connect.NewError(httpStatusCodeToRPC(statusCode), err)
 				return
 			}
 			end.err = wireErr.toConnectError()
